@@ -20,6 +20,7 @@ HARNESSES = [
     dict(name="c16", kind="native", srcs=["harness/c16/c16_pstl.cpp"]),
     dict(name="c16e1", kind="sched", srcs=["harness/c16/c16_pstl.cpp"], defs=["-DC16_E1"]),
     dict(name="c15", kind="native", srcs=["harness/c15/c15_reduce.cpp"]),
+    dict(name="c15s", kind="sched", srcs=["harness/c15/c15s_atomics.cpp"]),
     dict(name="c13", kind="native", srcs=["harness/c13/c13_divide.cpp"]),
     dict(name="c07", kind="sched", srcs=["harness/foreach/c07_main.cpp"]),
     dict(name="foreach", kind="sched",
@@ -123,7 +124,7 @@ PROPS = {
     ),
     "C06": dict(
         variants={"sched": ["galois_shmem"], "schedn": ["galois_shmem"]},
-        units=[dict(type="rc", harness="c06", quick=24000, thorough=400000),
+        units=[dict(type="rc", harness="c06", quick=24000, thorough=360000),
                dict(type="rc", harness="foreach", quick=10000, thorough=150000, exclude=["C01/BulkSynchronous+conflicts/lost-item"]),
                dict(type="rc", harness="c05", quick=10000, thorough=150000),
                dict(type="rc", harness="c03", quick=10000, thorough=150000, exclude=["C03/do_all-InsertBag/fewer-active-threads"])],
@@ -144,7 +145,7 @@ PROPS = {
     ),
     "C07": dict(
         variants={"sched": ["galois_shmem"]},
-        units=[dict(type="rc", harness="c07", quick=9000, thorough=150000)],
+        units=[dict(type="rc", harness="c07", quick=9000, thorough=135000)],
         engine="gsched+rapidcheck",
         technique="property-based testing with a differential/metamorphic oracle: each generated cautious program (non-commutative updates, dynamic work creation) is executed 3-4 times under the deterministic scheduler with different thread counts and fresh interleavings; per-object commit sequences, final state and executed item multiset must be identical; C01/C02 oracles inside each execution; HB check of the object payload",
         rule=("cases = (trait variant plain|det_id|fixed_neighborhood|local_state|det_parallel_break|per_iter_alloc, 3-4 executions with "
@@ -174,7 +175,7 @@ PROPS = {
     ),
     "C09": dict(
         variants={"fuzz": ["galois_shmem"]},
-        units=[dict(type="rc", harness="c09", quick=24000, thorough=1000000, enumerate=True)],
+        units=[dict(type="rc", harness="c09", quick=24000, thorough=360000, enumerate=True)],
         engine="rapidcheck + fork per case (ASan+UBSan)",
         technique="model-based property testing: rapidcheck-generated allocation histories (alloc/free/clear, sizes at every class boundary, operations assigned to threads, cross-thread frees, storage create/destroy/move) executed in a fresh forked child per case against every Galois allocator; shadow interval map + per-block canaries re-verified after every step; real-thread rounds for the concurrent part",
         rule=("cases = (allocator family, topology 4|2,2|1,1,1,1|3,1, threads 1..4, operation list in the tail); non-trivial = a free/clear "
@@ -190,7 +191,7 @@ PROPS = {
     ),
     "C10": dict(
         variants={"sched": ["galois_shmem"]},
-        units=[dict(type="rc", harness="c10", quick=16000, thorough=250000)],
+        units=[dict(type="rc", harness="c10", quick=16000, thorough=240000)],
         engine="gsched+rapidcheck",
         technique="model-based property testing: rapidcheck-generated cautious mutation programs (add/remove node, addEdge with duplicate check, addMultiEdge, removeEdge, findEdge, edge/node data updates, neighbour scans) inside for_each under controlled schedules; the commit-ticket log is replayed sequentially on a reference adjacency model and compared with a full structural dump through the public API, reads compared at their ticket",
         rule=("cases = (flavour directed|directed in/out|undirected|sorted neighbours|no-lockable(1 thread), threads 1..8, 1..12 initial "
@@ -205,9 +206,9 @@ PROPS = {
     ),
     "C12": dict(
         variants={"native": ["galois_shmem", "graph-convert"], "fuzz": ["galois_shmem"]},
-        units=[dict(type="rc", harness="c12a", quick=24000, thorough=1000000, workers=8),
-               dict(type="fuzz", harness="c12afz", quick=16000, thorough=2000000, workers=8, max_len=400),
-               dict(type="hyp", harness="py:c12b", quick=2400, thorough=60000)],
+        units=[dict(type="rc", harness="c12a", quick=24000, thorough=360000, workers=8),
+               dict(type="fuzz", harness="c12afz", quick=16000, thorough=240000, workers=8, max_len=400),
+               dict(type="hyp", harness="py:c12b", quick=2400, thorough=36000)],
         engine="hypothesis over subprocesses",
         technique="property-based testing: Hypothesis-generated text inputs (unambiguous grammar: blanks, CR/LF, comments, blank lines, missing weights, extra columns, id gaps, large ids, duplicates, self edges, no trailing newline) and binary .gr inputs written by an independent codec; graph-convert run as a subprocess; round-trip / reference-meaning oracle per conversion",
         rule=("cases = (conversion mode, edge type, up to 30 lines, CR/LF, trailing newline, inverse conversion, transforming "
@@ -224,7 +225,7 @@ PROPS = {
     ),
     "C13": dict(
         variants={"native": ["galois_shmem"]},
-        units=[dict(type="rc", harness="c13", quick=400000, thorough=10000000, enumerate=True, workers=8)],
+        units=[dict(type="rc", harness="c13", quick=400000, thorough=6000000, enumerate=True, workers=8)],
         engine="rapidcheck (in-process)",
         technique="property-based testing: exhaustive enumeration of small (size, parts, id) triples plus rapidcheck-generated sizes at the 32/64-bit boundaries, degree sequences, weights, scale factors and sub-ranges; partition oracle (contiguous, ordered, disjoint, exact cover, edge ranges = prefix-sum image)",
         rule=("cases = one of 7 division routines (block_range integral/iterator, divideNodesBinarySearch with weights/scale factors/"
@@ -243,10 +244,10 @@ PROPS = {
     ),
     "C14": dict(
         variants={"fuzz": ["galois_shmem"]},
-        units=[dict(type="rc", harness="c14a", quick=50000, thorough=4000000, workers=8),
-               dict(type="rc", harness="c14b", quick=50000, thorough=4000000, workers=8),
-               dict(type="fuzz", harness="c14afz", quick=100000, thorough=20000000, workers=8),
-               dict(type="fuzz", harness="c14bfz", quick=100000, thorough=20000000, workers=8)],
+        units=[dict(type="rc", harness="c14a", quick=50000, thorough=750000, workers=8),
+               dict(type="rc", harness="c14b", quick=50000, thorough=750000, workers=8),
+               dict(type="fuzz", harness="c14afz", quick=100000, thorough=1500000, workers=8),
+               dict(type="fuzz", harness="c14bfz", quick=100000, thorough=1500000, workers=8)],
         engine="rapidcheck (in-process, ASan+UBSan) + libFuzzer",
         technique="model-based property testing: rapidcheck-generated operation sequences (shrunk element-wise) and coverage-guided libFuzzer campaigns over the same decoder, executed against each Galois container and a std:: reference model after every operation; address-registry element type for exactly-once construction/destruction; ASan+UBSan",
         rule=("cases = (container family, variant, initial elements, up to 300 operations (opcode,a,b) in the case tail); non-trivial per "
@@ -261,10 +262,11 @@ PROPS = {
                      "single-threaded use"],
     ),
     "C15": dict(
-        variants={"native": ["galois_shmem"]},
-        units=[dict(type="rc", harness="c15", quick=500000, thorough=12000000, enumerate=True, workers=8)],
-        engine="rapidcheck (in-process, real threads)",
-        technique="property-based testing: rapidcheck-generated update multisets and thread assignments executed on the real thread pool; oracle = sequential fold / std::set / std::vector<bool> / sequential union-find; exhaustive enumeration of DynamicBitSet::reset(begin,end) alignments on sizes 1..200",
+        variants={"native": ["galois_shmem"], "sched": ["galois_shmem"]},
+        units=[dict(type="rc", harness="c15", quick=500000, thorough=7500000, enumerate=True, workers=8),
+               dict(type="rc", harness="c15s", quick=24000, thorough=360000)],
+        engine="rapidcheck (in-process, real threads) + gsched",
+        technique="property-based testing: rapidcheck-generated update multisets and thread assignments executed on the real thread pool; oracle = sequential fold / std::set / std::vector<bool> / sequential union-find; exhaustive enumeration of DynamicBitSet::reset(begin,end) alignments on sizes 1..200; the CAS loops (atomicMin/Max/Add/Subtract, DynamicBitSet set/reset, lock-free union-find merge/find) additionally run under the gsched schedule explorer with generated operation lists per thread",
         rule=("cases = (reducer or collection kind, value type, value-shape class incl. all-negative/mixed/extremes, 1..16 threads, "
               "PRF assignment of updates to threads, update values in the case tail, 1..3 update/reduce/reset rounds); dyadic floating-"
               "point values so every association order is exact; non-trivial = >=2 threads AND >=2 updates AND (value shape not small-"
@@ -272,16 +274,18 @@ PROPS = {
         level_text=("Generated search over GAccumulator (+=, -=, update), GReduceMax/Min, logical and/or, make_reducible with user merges "
                     "(xor, set union, move-only max), InsertBag and PerThread containers filled concurrently, DynamicBitSet (range reset "
                     "exhaustive on sizes<=200, concurrent set/reset, bitwise ops, count, getOffsets), atomicMin/Max/Add/Subtract, concurrent "
-                    "union-find. Real-thread schedules are sampled, not controlled. Exploration only."),
-        level_note="trusted: the sequential models in the harness; real threads (no schedule control) -- values are schedule independent by construction",
+                    "union-find. Real-thread schedules are sampled, not controlled, except for the CAS-loop helpers (c15s: atomic helpers incl. "
+                    "returned old values, bitset test-and-set and neighbour bits of one word, union-find partition and merge count), whose "
+                    "interleavings gsched explores. Exploration only."),
+        level_note="trusted: the sequential models in the harness; real threads (no schedule control) for the reducers and containers -- values are schedule independent by construction; gsched for the CAS loops",
         assumptions=["32-bit and float sums are kept in range/exact by construction (overflow and rounding are outside the property)",
                      "concurrent bitset set/reset touch each index from one thread only (the final bit value must be schedule independent)",
                      "DGAccumulator/DGReduceMax (distributed) are not covered by this unit"],
     ),
     "C16": dict(
         variants={"native": ["galois_shmem"], "sched": ["galois_shmem"]},
-        units=[dict(type="rc", harness="c16", quick=80000, thorough=4000000, workers=8),
-               dict(type="rc", harness="c16e1", quick=16000, thorough=300000)],
+        units=[dict(type="rc", harness="c16", quick=80000, thorough=1200000, workers=8),
+               dict(type="rc", harness="c16e1", quick=16000, thorough=240000)],
         engine="rapidcheck (in-process, real threads) + gsched",
         technique="property-based testing: rapidcheck-generated sequences (sizes around the 1024 serial cut-off and block multiples, patterns, predicates, 1..16 threads); differential oracle against std:: algorithms; validity predicates for partition (point + permutation) and find_if (any match)",
         rule=("cases = (algorithm, element type, threads, size from {0,1,1023,1024,1025,2047..2049,<1024,k*1024+r<=20479}, pattern random/"
@@ -296,9 +300,9 @@ PROPS = {
     "C17": dict(
         variants={"fuzz": ["galois_shmem"], "native": ["galois_shmem", "galois_dist_async", "galois_gluon", "distbench"]},
         extra_harnesses=["netharness"],
-        units=[dict(type="rc", harness="c17a", quick=60000, thorough=3000000, workers=8, enumerate=True),
-               dict(type="fuzz", harness="c17afz", quick=80000, thorough=20000000, workers=8, max_len=600),
-               dict(type="hyp", harness="py:c17b", quick=100, thorough=4000, workers=5)],
+        units=[dict(type="rc", harness="c17a", quick=60000, thorough=900000, workers=8, enumerate=True),
+               dict(type="fuzz", harness="c17afz", quick=80000, thorough=1200000, workers=8, max_len=600),
+               dict(type="hyp", harness="py:c17b", quick=100, thorough=1500, workers=5)],
         engine="rapidcheck (in-process, ASan+UBSan) + libFuzzer + hypothesis over MPI subprocesses",
         technique="round-trip property testing: generated value trees (86 type menu entries, concatenations of 1..8 values, junk prefix/suffix, 7 ways of building the DeSerializeBuffer) serialised and deserialised into fresh targets, compared value-for-value and byte-count-for-byte-count, also coverage-guided; network part: PRF-defined global message plans executed by an MPI harness with 1..4 hosts x 1..4 sender threads, every host checks exactly-once, per-(source,thread,tag) order, checksums and barrier stamps",
         rule=("unit c17a/c17afz: case = menu slots + values in the tail; non-trivial = the tree contains a non-linear sequence (vector of "
@@ -316,7 +320,7 @@ PROPS = {
     "C18": dict(
         variants={"native": ["galois_shmem", "galois_dist_async", "galois_gluon", "distbench"]},
         extra_harnesses=["dharness"],
-        units=[dict(type="hyp", harness="py:c18", quick=120, thorough=12000, workers=6)],
+        units=[dict(type="hyp", harness="py:c18", quick=120, thorough=1800, workers=6)],
         engine="hypothesis over MPI subprocesses",
         technique="property-based testing: Hypothesis-generated graphs, host counts, partition policies, write/read locations, reductions (min, max, add, set), bitset on/off, forced wire encodings and multi-round write plans over eligible proxies; the distributed harness applies the plan with the library's own sync structures under mpirun and dumps every proxy before/after each sync; reference = reduction over the master's previous value and the written eligible contributions",
         rule=("cases = (graph <=60 nodes, hosts 1..4, 9 policies, write x read location (9 pairs), reduction, update bitset on/off, "
@@ -332,7 +336,7 @@ PROPS = {
     "C19": dict(
         variants={"native": ["galois_shmem", "galois_dist_async", "galois_gluon", "distbench"]},
         extra_harnesses=["dharness"],
-        units=[dict(type="hyp", harness="py:c19", quick=120, thorough=5000, workers=6)],
+        units=[dict(type="hyp", harness="py:c19", quick=120, thorough=1800, workers=6)],
         engine="hypothesis over MPI subprocesses",
         technique="property-based testing: Hypothesis-generated graphs (isolated nodes, skew, fewer nodes than hosts, up to 300 nodes), host counts 1..4, all 11 partition policies, CSR and CSC variants; a distributed harness built like a lonestar app is run under mpirun and every host's dump (local edges, id maps, master/mirror lists, thread ranges) is checked against the input",
         rule=("cases = (graph, hosts in 1..4, policy in oec|iec|hovc|hivc|cvc|cvc-iec|ginger-o|ginger-i|fennel-o|fennel-i|sugar-o, CSR or CSC "
@@ -350,7 +354,7 @@ PROPS = {
                              "k-core-cpu", "pagerank-pull-cpu", "pagerank-push-cpu", "maximal-independentset-cpu", "preflowpush-cpu",
                              "bfs-push-dist", "bfs-pull-dist", "sssp-push-dist", "sssp-pull-dist", "connected-components-push-dist",
                              "connected-components-pull-dist", "k-core-push-dist", "k-core-pull-dist"]},
-        units=[dict(type="hyp", harness="py:c20", quick=240, thorough=12000, workers=8, env={"VERIF_SHRINK_EVALS": "40"})],
+        units=[dict(type="hyp", harness="py:c20", quick=240, thorough=3600, workers=8, env={"VERIF_SHRINK_EVALS": "40"})],
         engine="hypothesis over subprocesses (CPU apps) and MPI (distributed apps)",
         technique="property-based differential testing: Hypothesis-generated graphs (disconnected, self loops, parallel edges, hub skew, paths, up to 400 nodes), algorithm variants, thread counts 1..16, hosts 1..4 x partition policies; applications run as subprocesses / under mpirun; answers compared with references (BFS, Dijkstra, union-find, Kruskal, brute-force triangles, peeling, max-flow, power iteration) implemented in the driver",
         rule=("cases = (application, graph shape/size/edges, algorithm variant, threads in {1,2,4,8,16}, source/report node, parameter, hosts, "
